@@ -82,6 +82,7 @@ const (
 func (l *lexer) next() (r rune) {
 	// refill when the window is used up, or ends in the middle of a rune
 	for l.pos >= len(l.input) || !utf8.FullRuneInString(l.input[l.pos:]) {
+		verifEv("L", "need", 0, 0, l.inputs)
 		s, ok := <-l.inputs
 		verifEv("L", "recv", len(s), verifB(ok), l.inputs)
 		if !ok {
